@@ -7,6 +7,8 @@ from sa.model import Repo
 from sa import engine, selftest
 man = json.load(open('/verif/MANIFEST.json'))
 props = [c['property_id'] for c in man['checks']]
+if os.environ.get('PFST_MEMTEST_PROPS'):
+    props = [p for p in props if p in os.environ['PFST_MEMTEST_PROPS'].split(',')]
 base = Repo.read_sources()
 known = {k['key'] for k in engine.load_known().get('findings', [])}
 known |= {engine.key_signature(k) for k in known}
@@ -19,7 +21,11 @@ def run(args):
     except selftest.PatchError as e:
         return ('PATCH', str(e))
     mod = importlib.import_module('sa.rules.' + prop.lower())
-    code, ctx = engine.run_property(prop, mod, 'quick', repo=Repo(src), write=False, quiet=True)
+    try:
+        variant = Repo(src)
+    except Exception as e:
+        return ('PATCH', f'patched tree does not load: {e}')
+    code, ctx = engine.run_property(prop, mod, 'quick', repo=variant, write=False, quiet=True)
     if ctx is None:
         return ('ERR', '')
     new = [f for f in ctx.findings if f.key not in known and engine.key_signature(f.key) not in known]
